@@ -572,19 +572,19 @@ impl<'a> Analyzer<'a> {
       Some(Frame::Validate { task, deps, next, inconsistent, had_output }) if task == t => {
         // The task was reused without being executed.
         if !had_output {
-          self.add(s, &[Prop::C01, Prop::C09, Prop::C19], "reused-without-output", "", format!("T{} has no completed output but was not executed", t));
+          self.add(s, &[Prop::C09, Prop::C19], "reused-without-output", "", format!("T{} has no completed output but was not executed", t));
         } else if inconsistent {
-          self.add(s, &[Prop::C01, Prop::C09, Prop::C18], "reused-although-inconsistent", "",
+          self.add(s, &[Prop::C09, Prop::C18], "reused-although-inconsistent", "",
             format!("T{} was reused although a dependency of its last execution was reported inconsistent (or erred)", t));
         } else if next != deps.len() {
-          self.add(s, &[Prop::C01, Prop::C09], "reused-without-full-validation", "",
+          self.add(s, &[Prop::C09], "reused-without-full-validation", "",
             format!("T{} was reused after only {} of its {} recorded dependencies were validated", t, next, deps.len()));
         }
       }
       Some(Frame::Done { task }) if task == t => {}
       Some(Frame::Reuse { task }) if task == t => {}
       other => {
-        self.add(s, &[Prop::C17], "nesting", "", format!("end of require/check of T{} does not match the open operation {:?}", t, other));
+        self.add(s, &[], "nesting", "", format!("end of require/check of T{} does not match the open operation {:?}", t, other));
       }
     }
     s.validated |= bit(t);
@@ -635,7 +635,7 @@ impl<'a> Analyzer<'a> {
             }
           }
           other => {
-            self.add(s, &[Prop::C17], "nesting", "", format!("execution of T{} starts outside its require/check: open operation {:?}", task, other));
+            self.add(s, &[], "nesting", "", format!("execution of T{} starts outside its require/check: open operation {:?}", task, other));
           }
         }
         s.frames.push(Frame::Exec { task });
@@ -643,7 +643,7 @@ impl<'a> Analyzer<'a> {
       TrkEv::ExecEnd(task, _) => {
         match s.frames.pop() {
           Some(Frame::Exec { task: ft }) if ft == *task => {}
-          other => { self.add(s, &[Prop::C17], "nesting", "", format!("execution end of T{} does not match {:?}", task, other)); }
+          other => { self.add(s, &[], "nesting", "", format!("execution end of T{} does not match {:?}", task, other)); }
         }
         s.frames.push(Frame::Done { task: *task });
       }
@@ -657,7 +657,7 @@ impl<'a> Analyzer<'a> {
       Some(Frame::Validate { task, deps, next, had_output, .. }) => (*task, deps.get(*next).copied(), *had_output),
       other => {
         let other = format!("{:?}", other);
-        self.add(s, &[Prop::C17], "nesting", "", format!("dependency check {} outside a validation: {}", shown, other));
+        self.add(s, &[], "nesting", "", format!("dependency check {} outside a validation: {}", shown, other));
         return;
       }
     };
@@ -685,7 +685,7 @@ impl<'a> Analyzer<'a> {
       TrkEv::SchedByTaskStart(u) => s.sched_ctx = SchedCtx::Task(*u),
       TrkEv::CheckReadResEnd(x, rc, stamp, res) => {
         let SchedCtx::Res(r) = s.sched_ctx else {
-          self.add(s, &[Prop::C17], "nesting", "", format!("resource check of T{} outside schedule-by-resource", x));
+          self.add(s, &[], "nesting", "", format!("resource check of T{} outside schedule-by-resource", x));
           return;
         };
         let model = self.model_res_verdict(s, r, *rc, *stamp);
@@ -699,7 +699,7 @@ impl<'a> Analyzer<'a> {
       }
       TrkEv::CheckReqTaskEnd(x, oc, stamp, inc) => {
         let SchedCtx::Task(u) = s.sched_ctx else {
-          self.add(s, &[Prop::C17], "nesting", "", format!("require check of T{} outside schedule-by-task", x));
+          self.add(s, &[], "nesting", "", format!("require check of T{} outside schedule-by-task", x));
           return;
         };
         let model = match self.sh[u as usize].output { Some(out) => oc.consistent(out, *stamp), None => false };
